@@ -158,6 +158,8 @@ type FaultPlan struct {
 	// Kind is "generic", "notfound" (ErrUserNotFound/ErrTokenNotFound where the
 	// method can return them, generic otherwise) or "found" (ErrUserFound on Create).
 	Kind string
+	// Name, if set, fails the first backend call of that name instead of the At-th call.
+	Name string
 }
 
 // Backend is the shared call counter / fault injector for storage, hasher,
@@ -187,7 +189,11 @@ func (b *Backend) Enter(name string, notFound error) error {
 	b.mu.Lock()
 	defer b.mu.Unlock()
 	b.Calls = append(b.Calls, name)
-	if b.Plan.At == 0 || len(b.Calls) != b.Plan.At {
+	if b.Plan.Name != "" {
+		if name != b.Plan.Name || b.Fired != "" {
+			return nil
+		}
+	} else if b.Plan.At == 0 || len(b.Calls) != b.Plan.At {
 		return nil
 	}
 	b.Fired = name
